@@ -44,6 +44,10 @@ def spaces(tier, seed):
                                         "hm": range(1440), "pref": PREFS}, note="all 1440 HH:MM, TIMEZONE=UTC"))
     sp.append(Product("time-only-zones", {"bday": [59, 1154], "tod": [1], "tz": TZS, "hm": range(0, 1440, 7) if not T else range(1440),
                                           "pref": PREFS}))
+    sp.append(Product("time-only-dst-zone-both-seasons", {"tz": ["America/New_York", "Europe/Berlin", "Australia/Sydney", "America/Sao_Paulo"], "first": ["winter", "summer"],
+                                                          "hm": range(0, 1440, 15) if not T else range(1440), "pref": ["past", "future"], "aware": [True, False]},
+                      note="two calls in one case: a reference time in January, then one in July (or the other way round), TIMEZONE a zone with daylight saving time; "
+                           "both must give the nearest occurrence on the requested side"))
     sp.append(Product("time-only-own-zone", {"bday": [73, 804, 1900], "tod": [0, 1, 2], "tz": [None, "UTC"],
                                              "sz": range(len(STR_ZONES)), "hm": range(0, 1440, 7) if not T else range(1440), "pref": ["past", "future"]},
                       note="'HH:MM <zone>': the string's own zone decides the instant; TIMEZONE is unset or UTC (process zone UTC), so the naive reference is a UTC instant"))
@@ -52,6 +56,37 @@ def spaces(tier, seed):
                                          "form": ["D Month YY", "MM/DD/YY"], "md": [(1, 1), (6, 15), (6, 16), (12, 31), (3, 1)],
                                          "pref": PREFS}))
     return sp
+
+
+def dst_zone_case(c, pref):
+    H, M = divmod(c["hm"], 60)
+    s = "%02d:%02d" % (H, M)
+    z = pytz.timezone(c["tz"])
+    bases = {"winter": datetime(2021, 1, 15, 12, 30, 0), "summer": datetime(2021, 7, 15, 12, 30, 0)}
+    order = [c["first"], "summer" if c["first"] == "winter" else "winter"]
+    for season in order:
+        b = bases[season]
+        st = {"PREFER_DATES_FROM": pref, "TIMEZONE": c["tz"], "RELATIVE_BASE": z.localize(b) if c["aware"] else b}
+        if not c["aware"]:
+            # a naive reference is compared as UTC by the absolute parser (see the oracle log): give it as the UTC reading of the same instant
+            st["RELATIVE_BASE"] = z.localize(b).astimezone(pytz.utc).replace(tzinfo=None)
+        cand = b.replace(hour=H, minute=M, second=0, microsecond=0)
+        if pref == "past":
+            exp = cand if cand <= b else cand - timedelta(days=1)
+        else:
+            exp = cand if cand >= b else cand + timedelta(days=1)
+        o = api.outcome_of(api.gdd, s, ["en"], None, None, st, None, False, False)
+        got = o[1:] if o[0] == "exc" else o[1].date_obj
+        if c["aware"]:
+            ok = o[0] == "ok" and got is not None and got.replace(tzinfo=None) == exp
+        else:
+            # naive UTC reference: the result is a wall time in TIMEZONE on the day that makes it the nearest occurrence
+            ok = o[0] == "ok" and got is not None and got.replace(tzinfo=None) == exp
+        if not ok:
+            return "bad", True, {"cls": {"form": "time-only-dst-zone", "pref": pref, "problem": "not the nearest occurrence", "season": season,
+                                         "position": "first" if season == order[0] else "second", "aware_base": c["aware"]},
+                                 "expected": exp, "observed": got, "detail": {"string": s, "settings": st, "calls_before": order[:order.index(season)]}}
+    return "ok", True, None
 
 
 def own_zone_case(c, b, pref):
@@ -114,6 +149,8 @@ def base_of(c):
 
 
 def run_case(sub, c):
+    if sub == "time-only-dst-zone-both-seasons":
+        return dst_zone_case(c, c["pref"])
     b = base_of(c)
     pref = c["pref"]
     st = {"RELATIVE_BASE": b, "PREFER_DATES_FROM": pref, "TIMEZONE": "UTC"}
